@@ -450,9 +450,11 @@ def run_case(scn, ctx):
             w.put("R/late_ignored.zzz", "matches only the newest pattern")
             nb = len(w.manifests("R"))
             res = w.create("R", ["md5"], extra=["-i", "*.zzz"])
-            require(res.exc is None and res.exit_code == 10, "child-gone", "create after the nested history folder %r was removed: %s" % (child, res.brief()), res)
+            # (10: the folder is reported missing; 30 when the folder itself is excluded by a pattern, so that only the
+            # reference to its vanished history remains to complain about - either way the generation is written)
+            require(res.exc is None and res.exit_code in (10, 30), "child-gone", "create after the nested history folder %r was removed: %s" % (child, res.brief()), res)
             ms = w.read_history("R")
-            require(len(ms) == nb + 1, "child-gone", "no generation written by the exit-10 run", res)
+            require(len(ms) == nb + 1, "child-gone", "no generation written by the exit-%s run" % res.exit_code, res)
             now = eff + ["*.zzz"]
             for r in ms[-1][2]["records"]:
                 require(not matches(r["path"], now), "x-recorded", "the generation written after the nested history %r was removed records %r which patterns %r exclude" % (child, r["path"], now), res)
